@@ -383,9 +383,16 @@ class Uri(six.text_type):
                            super(Uri, self).__repr__())
 
     def __eq__(self, other):
+        # Not NotImplemented: the plain string comparison would then be
+        # tried as a fall-back and find the text equal.
         if not isinstance(other, Uri):
-            return NotImplemented
+            return False
         return super(Uri, self).__eq__(other)
+
+    def __ne__(self, other):
+        return not self.__eq__(other)
+
+    __hash__ = six.text_type.__hash__
 
 
 class Bin(six.text_type):
@@ -400,9 +407,16 @@ class Bin(six.text_type):
                            super(Bin, self).__repr__())
 
     def __eq__(self, other):
+        # Not NotImplemented: the plain string comparison would then be
+        # tried as a fall-back and find the text equal.
         if not isinstance(other, Bin):
-            return NotImplemented
+            return False
         return super(Bin, self).__eq__(other)
+
+    def __ne__(self, other):
+        return not self.__eq__(other)
+
+    __hash__ = six.text_type.__hash__
 
 
 class XStr(object):
